@@ -24,7 +24,10 @@ RULE = ("seeded random declaration sets (1-12 variables, formats BHIQbhiq x "
         "and inside the map) is checked, then distinct values are written "
         "from Python, copied to twins by the program in the kernel, re-read "
         "from Python, then written by the program and read from Python; "
-        "per-CPU leg: one value per possible CPU, counter sum over N runs. "
+        "per-CPU leg: random declarations incl. x, the process pinned to "
+        "2-3 chosen CPUs in turn with CPU-specific inputs, every CPU's entry "
+        "of every variable compared (own value where it ran, zero "
+        "elsewhere), counter per CPU. "
         "a case = one configuration; non-trivial = >= 2 variables and the "
         "program ran")
 ASSUMPTIONS = ["possible CPUs == os.cpu_count() on this machine (checked)"]
@@ -273,50 +276,115 @@ def same(fmt, got, want):
 
 
 def percpu_leg(res, rng):
-    ncpu = kern.possible_cpus()
+    """per-CPU maps: random declarations of every format; the program copies
+    inputs from a plain array map into the per-CPU variables and counts; it
+    is run on 2-3 chosen CPUs (the process is pinned, BPF_PROG_TEST_RUN
+    executes on the caller's CPU) with CPU-specific inputs; Python must see
+    exactly each CPU's own values in that CPU's entry and zeros elsewhere"""
     import os
+    from ebpfcat.arraymap import ArrayMap
+    ncpu = kern.possible_cpus()
     if ncpu != os.cpu_count():
         res.inconc("possible CPUs differ from os.cpu_count()")
-    for fmt in ["I", "Q", "H", "i", "B"]:
+    allowed = sorted(os.sched_getaffinity(0))
+    for rnd in range(4):
+        fmts = [rng.choice(SCALAR * 2 + ["3H", "2I", "2q"])
+                for _ in range(rng.randint(2, 6))]
+        if rnd == 0:
+            fmts[0] = "x"
         with kern.session() as sess:
             pm = PerCPUArrayMap()
-            ns = {"license": "GPL", "pm": pm, "c": pm.globalVar(fmt),
-                  "v": pm.globalVar("Q"), "z": pm.globalVar("B")}
+            am = ArrayMap()
+            ns = {"license": "GPL", "pm": pm, "am": am,
+                  "cnt": pm.globalVar("I")}
+            for i, f in enumerate(fmts):
+                ns[f"p{i}"] = pm.globalVar(f)
+                if len(f) == 1:
+                    ns[f"i{i}"] = am.globalVar(f)
 
             def program(self):
-                self.c = self.c + 1
-                self.v = 0x1122334455667788
+                self.cnt += 1
+                for i, f in enumerate(fmts):
+                    if len(f) == 1:
+                        setattr(self, f"p{i}", getattr(self, f"i{i}"))
                 self.r0 = 2
                 self.exit()
             ns["program"] = program
             e = type("VfPC", (XDP,), ns)()
             ld = prog.Loaded(e, sess)
-            ld.load()
             try:
-                N = rng.randint(3, 40)
-                for _ in range(N):
-                    ld.run_k(bytes(64))
-                e.pm.read()
-                res.case(["percpu", fmt, N])
-                res.count("percpu_runs", N)
-                if len(e.c) != ncpu:
-                    res.violation("unexplained:percpu-length",
-                                  f"len(var)={len(e.c)} possible cpus={ncpu}")
-                tot = sum(e.c[i] for i in range(len(e.c)))
-                mask = (1 << (8 * struct.calcsize(fmt))) - 1
-                if tot & mask != N & mask:
-                    res.violation("unexplained:percpu-sum",
-                                  f"{fmt}: sum over CPUs {tot} after {N} runs")
-                vs = [e.v[i] for i in range(len(e.v))]
-                cs = [e.c[i] for i in range(len(e.c))]
-                for i in range(len(vs)):
-                    if (vs[i] != 0) != (cs[i] != 0) or \
-                            vs[i] not in (0, 0x1122334455667788):
-                        res.violation("unexplained:percpu-value",
-                                      f"cpu {i}: v={vs[i]:#x} c={cs[i]}")
-                        break
-            finally:
+                ld.load()
+            except OSError as ex:
+                res.count("percpu_load_failed")
+                res.sample(dict(percpu_load_failed=fmts,
+                                log=str(ex)[-300:]), limit=2)
                 ld.close()
+                continue
+            cpus = rng.sample(allowed, min(len(allowed), rng.randint(2, 3)))
+            written = {}
+            runs = {}
+            try:
+                for cpu in cpus:
+                    os.sched_setaffinity(0, {cpu})
+                    vals = {}
+                    for i, f in enumerate(fmts):
+                        if len(f) != 1:
+                            continue
+                        if f == "x":
+                            v = rng.choice([1, -1]) * rng.randint(
+                                0, 10 ** 9) / 100000
+                            v = round(v * 100000) / 100000
+                        else:
+                            sz = struct.calcsize(f)
+                            v = rng.getrandbits(8 * sz) or 1
+                            if f.islower():
+                                v = v - (1 << (8 * sz)) \
+                                    if v >> (8 * sz - 1) else v
+                        setattr(e, f"i{i}", v)
+                        vals[i] = v
+                    n = rng.randint(1, 5)
+                    for _ in range(n):
+                        ld.run_k(bytes(64))
+                    written[cpu] = vals
+                    runs[cpu] = n
+            finally:
+                os.sched_setaffinity(0, set(allowed))
+            e.pm.read()
+            res.case(["percpu", fmts, cpus])
+            res.count("percpu_runs", sum(runs.values()))
+            desc = dict(fmts=fmts, cpus=cpus, runs=runs)
+            if len(e.cnt) != ncpu:
+                res.violation("unexplained:percpu-length",
+                              f"len(var)={len(e.cnt)} possible cpus={ncpu}",
+                              case=desc)
+                ld.close()
+                continue
+            for cpu in range(ncpu):
+                want_n = runs.get(cpu, 0)
+                if e.cnt[cpu] != want_n:
+                    res.violation(
+                        "unexplained:percpu-counter",
+                        f"cpu {cpu}: counter {e.cnt[cpu]} after "
+                        f"{want_n} runs there", case=desc)
+                    break
+                for i, f in enumerate(fmts):
+                    got = getattr(e, f"p{i}")[cpu]
+                    if len(f) != 1:
+                        want = tuple([0] * int(f[:-1]))
+                        ok = tuple(got) == want
+                    else:
+                        want = written.get(cpu, {}).get(i, 0)
+                        ok = same(f, got, want)
+                    res.count(f"percpu_cmp[{'x' if f == 'x' else 'int'}/"
+                              f"{'ran' if cpu in runs else 'idle'}]")
+                    if not ok:
+                        res.violation(
+                            "unexplained:percpu-value",
+                            f"cpu {cpu} variable p{i} ({f}): Python reads "
+                            f"{got!r}, the program stored {want!r} there",
+                            case=desc)
+                        break
+            ld.close()
 
 
 def run_shard(params):
@@ -334,6 +402,10 @@ def finalize(res, tier, seed):
         res.inconc("no program-side copy was checked")
     if not c.get("percpu_runs"):
         res.inconc("per-CPU leg did not run")
+    for k in ("percpu_cmp[x/ran]", "percpu_cmp[int/ran]",
+              "percpu_cmp[int/idle]"):
+        if not c.get(k):
+            res.inconc(f"per-CPU leg: nothing compared in stratum {k}")
 
 
 def replay(v):
